@@ -34,7 +34,14 @@ type c20Scenario struct {
 	Fails   []int  `json:"fails_before_success"` // per target; 99 = never succeeds
 	Gets    int    `json:"gets_per_target"`
 	Disc    string `json:"discovery_action"` // none, keep, remove, readd, reload-drop
+	// QueueCap > 0 shrinks the explorer's work queue (10000 entries in production) so that "more targets asked
+	// for than queue + workers can take" is reachable with three targets
+	QueueCap int `json:"queue_cap,omitempty"`
 }
+
+var c20Kept = map[string]int{"t1": 7, "t2": 11, "t3": 13}
+
+func c20Names(n int) []string { return []string{"t1", "t2", "t3"}[:n] }
 
 type c20Probe struct {
 	T      string        `json:"target"`
@@ -77,16 +84,21 @@ func c20Run(x *vrt.X, sc c20Scenario, hashes map[string]uint64, info *prom.Confi
 	o := &c20Obs{Removed: map[string]c20Mark{}, Readded: map[string]c20Mark{}, Final: map[string]c20Get{}, Posted: map[string]*h1.PT{}}
 	start := time.Unix(1700000000, 0)
 	seq := 0
-	names := []string{"t1", "t2"}[:sc.Targets]
+	names := c20Names(sc.Targets)
 	sm := kscrape.New(true, h1Quiet())
 	_ = sm.ApplyConfig(info)
 	e := explore.New(sm, prometheus.NewRegistry(), h1Quiet())
 	attempts := map[string]int{}
-	kept := map[string]int{"t1": 7, "t2": 11}
+	kept := c20Kept
+	if sc.QueueCap > 0 {
+		e.VerifSetQueueCap(sc.QueueCap)
+	}
 	e.VerifSetProbe(c20Retry, func(log logrus.FieldLogger, ji *kscrape.JobInfo, url string) (*kscrape.StatisticsSeriesResult, error) {
-		name := "t1"
-		if strings.Contains(url, "A-t2") {
-			name = "t2"
+		name, ti := "t1", 0
+		for i, n := range names {
+			if strings.Contains(url, "A-"+n) {
+				name, ti = n, i
+			}
 		}
 		seq++
 		p := c20Probe{T: name, Start: vrt.Now().Sub(start), Seq: seq}
@@ -95,10 +107,6 @@ func c20Run(x *vrt.X, sc c20Scenario, hashes map[string]uint64, info *prom.Confi
 		vrt.Yield("probe " + name) // the probe takes a while: other goroutines may run
 		n := attempts[name]
 		attempts[name]++
-		ti := 0
-		if name == "t2" {
-			ti = 1
-		}
 		seq++
 		o.Probes[idx].End = vrt.Now().Sub(start)
 		o.Probes[idx].EndSeq = seq
@@ -217,15 +225,22 @@ func c20Oracle(sc c20Scenario, o *c20Obs) []Finding {
 		return fs
 	}
 	if o.Deadlock {
-		add("no-deadlock", "C20:deadlock", "deadlock")
+		if sc.QueueCap > 0 {
+			add("no-deadlock", "C20:deadlock:queue-full", fmt.Sprintf("deadlock with a work queue of %d, %d worker(s) and %d targets asked for: the explorer never probes again", sc.QueueCap, sc.Workers, sc.Targets))
+		} else {
+			add("no-deadlock", "C20:deadlock", "deadlock")
+		}
 		return fs
 	}
 	if o.Horizon {
 		add("terminates", "C20:livelock", "step horizon reached (probing never settles)")
 		return fs
 	}
-	kept := map[string]int64{"t1": 7, "t2": 11}
-	names := []string{"t1", "t2"}[:sc.Targets]
+	kept := map[string]int64{}
+	for n, k := range c20Kept {
+		kept[n] = int64(k)
+	}
+	names := c20Names(sc.Targets)
 	for ti, n := range names {
 		var ps []c20Probe
 		for _, p := range o.Probes {
@@ -370,7 +385,7 @@ func init() {
 		if err != nil {
 			chk.Fatalf("%v", err)
 		}
-		act, _ := pipe.Discovered(info, []map[string][]*targetgroup.Group{{"A": c17Groups('A', 2)}})
+		act, _ := pipe.Discovered(info, []map[string][]*targetgroup.Group{{"A": c17Groups('A', 5)}})
 		hashes := map[string]uint64{}
 		sd := map[string]*discovery.SDTargets{}
 		for h, t := range act {
@@ -399,6 +414,19 @@ func init() {
 								scs = append(scs, c20Scenario{Targets: nt, Workers: w, Fails: []int{f1, f2}, Gets: gets, Disc: disc})
 							}
 						}
+					}
+				}
+			}
+		}
+		// a full work queue: three targets asked for back to back, queue of one or two, one or two workers
+		for _, w := range []int{1, 2} {
+			for _, qc := range []int{1, 2} {
+				for _, fails := range [][]int{{0, 0, 0}, {1, 0, 0}, {0, 1, 0}, {1, 1, 1}} {
+					for _, disc := range []string{"none", "keep", "remove"} {
+						if !c.Thorough() && (qc == 2 || (w == 2 && disc != "none")) {
+							continue
+						}
+						scs = append(scs, c20Scenario{Targets: 3, Workers: w, Fails: fails, Gets: 1, Disc: disc, QueueCap: qc})
 					}
 				}
 			}
